@@ -27,11 +27,12 @@ type stallCase struct {
 
 // originCase: a complete request whose origin sleeps longer than every limit; then the connection idles.
 type originCase struct {
-	Kind    string `json:"kind"` // "origin"
-	Conf    Conf   `json:"conf"`
-	Body    int    `json:"body"`
-	SleepMs int    `json:"sleep_ms"`
-	ID      string `json:"id"`
+	Kind      string `json:"kind"` // "origin"
+	Conf      Conf   `json:"conf"`
+	Body      int    `json:"body"`
+	SleepMs   int    `json:"sleep_ms"`
+	RespBytes int    `json:"resp_bytes,omitempty"` // size of the origin's response body (0: "ok")
+	ID        string `json:"id"`
 }
 
 // bodyCase: request head + part of the body, a pause longer than every limit, then the rest.
@@ -314,7 +315,8 @@ func (c Conf) reduced(marginMs int) Conf {
 		}
 		return v - marginMs
 	}
-	c.L = Limits{Idle: f(c.L.Idle), ReadHeader: f(c.L.ReadHeader), Read: f(c.L.Read), TLS: f(c.L.TLS), ProxyHdr: f(c.L.ProxyHdr)}
+	c.L = Limits{Idle: f(c.L.Idle), ReadHeader: f(c.L.ReadHeader), Read: f(c.L.Read), TLS: f(c.L.TLS), ProxyHdr: f(c.L.ProxyHdr),
+		Write: f(c.L.Write), Connect: c.L.Connect}
 	return c
 }
 
@@ -412,7 +414,11 @@ func (e *env) runOrigin(ctx *core.Ctx, oc *originCase) {
 			return
 		}
 		t1 := time.Now()
-		st, status, err := s.exchange(oc.Body, oc.SleepMs, time.Duration(oc.SleepMs)*time.Millisecond+10*time.Second)
+		var extra []string
+		if oc.RespBytes > 0 {
+			extra = append(extra, fmt.Sprintf("X-Body: %d", oc.RespBytes))
+		}
+		st, status, err := s.exchange(oc.Body, oc.SleepMs, time.Duration(oc.SleepMs)*time.Millisecond+10*time.Second, extra...)
 		took := time.Since(t1)
 		if err != nil || status != 200 {
 			mo := askDeadline(ctx.Model, e.conf, 0, s.events)
@@ -422,7 +428,7 @@ func (e *env) runOrigin(ctx *core.Ctx, oc *originCase) {
 			}
 			impl := fmt.Sprintf("status=%d err=%v after %dms (origin sleeps %dms; limits %+v)", status, err, took.Milliseconds(), oc.SleepMs, oc.Conf.L)
 			r.SpecFail(clauseOrigin, "", oc, impl, "the client did not get the origin's answer")
-			r.Disagree("no deadline while waiting for the origin (Model.C15 run)", oc, impl, mo.Raw)
+			r.Disagree(relWaiting, oc, impl, mo.Raw)
 			return
 		}
 		limit := oc.Conf.idleEff()
@@ -752,14 +758,21 @@ func genLimits(r *core.Rand) Limits {
 	if l.Idle < 260 && r.Chance(70) {
 		l.Idle = 10 * r.Range(26, 40)
 	}
+	if r.Chance(80) {
+		l.Write = v()
+	}
 	return l
 }
 
 type job struct {
-	stall  *stallCase
-	origin *originCase
-	body   *bodyCase
-	group  *groupCase
+	stall   *stallCase
+	origin  *originCase
+	body    *bodyCase
+	group   *groupCase
+	connect *connectCase
+	resp    *respCase
+	sink    *sinkCase
+	tunnel  *tunnelCase
 }
 
 func (e *env) do(ctx *core.Ctx, j job) {
@@ -772,6 +785,14 @@ func (e *env) do(ctx *core.Ctx, j job) {
 		e.runBody(ctx, j.body)
 	case j.group != nil:
 		e.runGroup(ctx, j.group)
+	case j.connect != nil:
+		e.runConnect(ctx, j.connect)
+	case j.resp != nil:
+		e.runResp(ctx, j.resp)
+	case j.sink != nil:
+		e.runSink(ctx, j.sink)
+	case j.tunnel != nil:
+		e.runTunnel(ctx, j.tunnel)
 	}
 }
 
@@ -787,8 +808,9 @@ func genJobs(ctx *core.Ctx, r *core.Rand, conf Conf, tag string) []job {
 			jobs = append(jobs, job{stall: &stallCase{Kind: "stall", Conf: conf, Point: "mitm-peek", ID: id("m", i)}})
 		}
 	}
+	jobs = append(jobs, genSlowJobs(ctx, r, conf, id, 1)...)
 	for i := 0; i < ctx.N(3, 8); i++ {
-		oc := &originCase{Kind: "origin", Conf: conf, ID: id("o", i), SleepMs: conf.maxLimit() + r.Range(150, 350)}
+		oc := &originCase{Kind: "origin", Conf: conf, ID: id("o", i), SleepMs: conf.maxClientLimit() + r.Range(150, 350)}
 		if r.Chance(40) {
 			oc.Body = r.Range(1, 3000)
 		}
@@ -854,6 +876,9 @@ func Run(ctx *core.Ctx) {
 	ctx.SetRule("real proxy per (listener stacking ∈ {plain, tls, mitm, proxy, proxy+tls}, limits 150-400 ms); cases: one client stalling before any byte / after k bytes of a " +
 		"PROXY header (v1, v2), TLS ClientHello, request head (optionally after an idle wait and after 0-2 complete exchanges), after CONNECT 200 silent or with k bytes of a ClientHello; " +
 		"origin sleeping longer than every limit; pause longer than every limit inside a request body; groups of 1-50 simultaneously stalled peers + a probe; " +
+		"slow origin side with every configured client-side limit (idle, read-header, read, WRITE, handshake) 1.5-4x shorter than its latency: response head, CONNECT target (slow dial, full accept queue, " +
+		"upstream proxy delaying its 200; ConnectTimeout longer), response body in pieces with pauses shorter / longer than WriteTimeout; client not taking a 1 GiB response (cut at writeStart + WriteTimeout, never when unset); " +
+		"tunnels (CONNECT; 101 upgrade, also inside an intercepted session) with fast and slow targets, echoed across pauses longer than every client-side limit incl. ReadTimeout or steadily for longer than that; " +
 		"every case is non-trivial; distinct = distinct (configuration, case parameters)")
 	ctx.Assume("wall clock sampled: close instants and probe latencies are measured on the monotonic clock of the harness process; lower side sharp (1 ms), upper side with slack")
 	for _, c := range core.LoadCorpus(ctx.Root, "C15") {
@@ -877,7 +902,37 @@ func Run(ctx *core.Ctx) {
 	for i := 0; i < ctx.N(1, 2); i++ {
 		r := ctx.Rng.Sub()
 		conf := Conf{Stack: "plain", L: Limits{Read: 10 * r.Range(20, 40), TLS: 300}}
+		if r.Chance(50) {
+			conf.L.Write = 10 * r.Range(15, 40)
+		}
 		plans = append(plans, plan{conf, genJobs(ctx, r, conf, fmt.Sprintf("rt%d", i))})
+	}
+	// slow origins only. Every stacking with EVERY limit set (ReadTimeout and WriteTimeout next to the idle,
+	// header and handshake limits), and non-intercepting stackings behind an upstream proxy that delays its 200
+	// (ConnectTimeout longer than the delay, or the default)
+	slowOnly := func(conf Conf, tag string, r *core.Rand) {
+		id := func(kind string, i int) string { return fmt.Sprintf("%s-%s%d", tag, kind, i) }
+		jobs := genSlowJobs(ctx, r, conf, id, 1)
+		core.Shuffle(r, jobs)
+		plans = append(plans, plan{conf, jobs})
+	}
+	for si := 0; si < ctx.N(1, 3); si++ {
+		for _, st := range stacks {
+			r := ctx.Rng.Sub()
+			conf := Conf{Stack: st, L: genLimits(r)}
+			conf.L.Read = 10 * r.Range(15, 40)
+			conf.L.Write = 10 * r.Range(15, 40)
+			slowOnly(conf, fmt.Sprintf("all-%s%d", st, si), r)
+		}
+	}
+	for i := 0; i < ctx.N(1, 4); i++ {
+		r := ctx.Rng.Sub()
+		conf := Conf{Stack: core.Pick(r, []string{"plain", "tls", "proxy", "proxy+tls"}), L: genLimits(r), Upstream: true}
+		conf.L.Write = 10 * r.Range(15, 40)
+		if r.Chance(60) {
+			conf.L.Connect = 4*conf.maxClientLimit() + r.Range(800, 1500)
+		}
+		slowOnly(conf, fmt.Sprintf("up%d", i), r)
 	}
 	for i, p := range plans {
 		if i < 3 && len(p.jobs) > 0 {
@@ -891,6 +946,14 @@ func Run(ctx *core.Ctx) {
 				ctx.Sample(j.body)
 			case j.group != nil:
 				ctx.Sample(j.group)
+			case j.connect != nil:
+				ctx.Sample(j.connect)
+			case j.resp != nil:
+				ctx.Sample(j.resp)
+			case j.sink != nil:
+				ctx.Sample(j.sink)
+			case j.tunnel != nil:
+				ctx.Sample(j.tunnel)
 			}
 		}
 	}
@@ -978,6 +1041,18 @@ func Replay(ctx *core.Ctx, raw json.RawMessage) {
 	case "group":
 		j.group = &groupCase{}
 		json.Unmarshal(raw, j.group)
+	case "connect":
+		j.connect = &connectCase{}
+		json.Unmarshal(raw, j.connect)
+	case "resp":
+		j.resp = &respCase{}
+		json.Unmarshal(raw, j.resp)
+	case "sink":
+		j.sink = &sinkCase{}
+		json.Unmarshal(raw, j.sink)
+	case "tunnel":
+		j.tunnel = &tunnelCase{}
+		json.Unmarshal(raw, j.tunnel)
 	case "warmup":
 		j.group = &groupCase{Kind: "group", Conf: k.Conf, ID: "warmup"}
 	default:
